@@ -110,7 +110,7 @@ def run(tier, seed, rng):
         c0 = sorted(table)[-1]
         v0 = vg.try_value(c0)
         threads = None
-        payload_groups.append(dict(header=decl.HEADER_PY, blocks=G.blocks(), modname=f"c13_{gid}", histories=hs, threads=threads))
+        payload_groups.append(dict(header=decl.HEADER_PY, blocks=G.blocks(), modname=f"c13_{gid}", histories=hs, threads=threads, solo=True))
         metas.append((table, hs))
     # ---- known findings as explicit probes
     probes = dict(header=decl.HEADER_PY + "from bisturi.field import Data\n", modname="c13probe", blocks=[dict(name='probe', src='''
@@ -139,7 +139,7 @@ class Two(Packet):
     payloads = [dict(groups=p) for p in parts] + [dict(groups=[probes])]
     results = run_impl_parallel(os.path.join(VERIF, 'harness', 'impl_world.py'), payloads)
     failures = []
-    dist = dict(histories=0, steps=0, interference=0, shared_objects=0, pack_impure=0, field_writes=0, thread_rounds=0, thread_mismatches=0)
+    dist = dict(histories=0, steps=0, interference=0, shared_objects=0, pack_impure=0, world_dependent=0, solo_compared=0, field_writes=0, thread_rounds=0, thread_mismatches=0)
     flat = [g for res in results[:-1] for g in res['groups']]
     for (table, hs), gres in zip(metas, flat):
         src = "".join(decl.py_class(c, pc) for c, pc in sorted(table.items()))
@@ -158,6 +158,10 @@ class Two(Packet):
                 elif r['kind'] == 'shared-object':
                     dist['shared_objects'] += 1
                     failures.append(dict(kind='oracle', sig='shared-object', what=f"two packets share a mutable sub-object: {r['paths']}", classes=src, history=h, detail=r))
+                elif r['kind'] == 'world-dependent':
+                    dist['world_dependent'] += 1
+                    failures.append(dict(kind='oracle', sig='world-dependent', what=f"packet {r['packet']} serializes to {r['here']} after this history but an equal packet alone in a fresh world serializes to {r['alone']}",
+                                         classes=src, history=h, detail=r))
                 elif r['kind'] == 'pack-impure':
                     dist['pack_impure'] += 1
                     failures.append(dict(kind='oracle', sig='pack-impure', what='two pack() calls returned different bytes or changed a field', classes=src, history=h, detail=r))
@@ -176,7 +180,7 @@ class Two(Packet):
                 rule=("random class tables (shared sub-packet classes, defaults, prototypes, repeated fields); per table several histories of 3..7 "
                       "operations (construct with values / with defaults, assign a field or a list, pack) over several live packets; after every "
                       "operation every OTHER live packet's fields and pack() output must be unchanged, no list / nested packet may be shared by "
-                      "identity between two packets, two consecutive pack() calls must agree; a write monitor on the field objects reports any "
+                      "identity between two packets, two consecutive pack() calls must agree; at the end of every history every live packet must serialize exactly as an equal packet built alone in a fresh world (the class definitions executed again) does; a write monitor on the field objects reports any "
                       "attribute written after class creation; 8 threads x rounds of parse+pack on distinct packets vs the sequential result; "
                       "explicit probes for the findings D8 and D9"),
                 samples=[dict(history=metas[0][1][0])] if metas and metas[0][1] else [],
